@@ -225,12 +225,16 @@ def block_independence(ctx, rep, seq, nd, rule='R15.6'):
     lib = ctx.lib
     eng = ctx.engine()
     eng.opaque.add(nd)
-    # the per-day computation stays opaque: only what is fed into it matters here
-    for _, t_ in lib.bodies[seq].calls():
-        n_ = callee_name(t_)
-        b_ = lib.bodies.get(n_)
-        if b_ is not None and b_.kind in ('Fn', 'AssocFn') and not b_.derived and n_ != nd:
-            eng.opaque.add(n_)
+    # the per-day computation stays opaque: only what is fed into it matters here.  Opaque are the single-date API, the functions
+    # it is made of (the range API may call those directly) and whatever else the range API calls directly
+    dt = ctx.role('dt')
+    eng.opaque.add(dt)
+    for f_ in (dt, seq):
+        for _, t_ in lib.bodies[f_].calls():
+            n_ = callee_name(t_)
+            b_ = lib.bodies.get(n_)
+            if b_ is not None and b_.kind in ('Fn', 'AssocFn') and not b_.derived and n_ != nd and n_ != seq:
+                eng.opaque.add(n_)
     inserts = []
     eng.hooks['map_insert'] = lambda eng_, st_, fr_, t_, ptr_, k_, v_: inserts.append((E.intern(eng_.purify(st_, k_)), E.intern(eng_.purify(st_, v_))))
     tree = eng.call_entry(seq, eng.sym_args(seq, ['params', 'location', 'date_range']))
